@@ -1841,6 +1841,41 @@ func enumCacheStartsImpossible(fn *ssa.Function) bool {
 			}
 		})
 	}
+	if !found && ok {
+		// the comparison sits in a method of the cache (cache.hit(at)): the cell is then recognised as
+		// what it is — a local struct of fn that the filter callback captures — and every store fn
+		// itself makes into a uint32 field of it (the initial value of the remembered location) is the
+		// impossible location
+		captured := map[ssa.Value]bool{}
+		allInstrs(fn, func(i2 ssa.Instruction) {
+			if mc, isMk := i2.(*ssa.MakeClosure); isMk {
+				for _, b := range mc.Bindings {
+					captured[b] = true
+				}
+			}
+		})
+		allInstrs(fn, func(i2 ssa.Instruction) {
+			st, isSt := i2.(*ssa.Store)
+			if !isSt {
+				return
+			}
+			fa, isFA := st.Addr.(*ssa.FieldAddr)
+			if !isFA || !captured[fa.X] {
+				return
+			}
+			if _, isAl := fa.X.(*ssa.Alloc); !isAl {
+				return
+			}
+			b, isB := st.Val.Type().Underlying().(*types.Basic)
+			if !isB || b.Kind() != types.Uint32 {
+				return
+			}
+			found = true
+			if c, isC := constInt(st.Val); !isC || c != 0xffffffff {
+				ok = false
+			}
+		})
+	}
 	return found && ok
 }
 
